@@ -296,6 +296,18 @@ def check_C04(ctx):
     # values: long decimals, ties, subnormals (correct rounding is what strconv does; the model's parse_float is compared bit for bit)
     nums = [gen.number(r, special=0.3) for _ in range(ctx.scale(8000, 100000))]
     nums += ["%d.%s" % (r.randint(0, 99), "".join(r.choice("0123456789") for _ in range(r.randint(14, 19)))) for _ in range(ctx.scale(3000, 100000))]
+    # the whole grammar of strconv.ParseFloat: every sign x decimal / hexadecimal mantissa x exponent, underscores, the spellings of infinity and NaN,
+    # near-misses of all of them, and single-character mutations (accepted or rejected, and the bits when accepted, must agree with the model)
+    wide = [gen.number_wide(r) for _ in range(ctx.scale(6000, 80000))] + list(gen.BAD_NUMBERS)
+    for _ in range(ctx.scale(2000, 30000)):
+        x = list(r.choice(wide)); j = r.randrange(len(x) + 1)
+        op = r.random()
+        if op < 0.4 and x: x[min(j, len(x) - 1)] = r.choice("0123456789abcdefxXpPeE._+-nNiI")
+        elif op < 0.7: x.insert(j, r.choice("0123456789abcdefxXpPeE._+-"))
+        elif x: del x[min(j, len(x) - 1)]
+        if x and not any(ch in " \t\n\r" for ch in x): wide.append("".join(x))
+    nums += wide
+    for x in wide[:4000]: ctx.tally("number_shape", "hex" if "x" in x.lower()[:3] else "special" if x.lower().lstrip("+-")[:1] in ("i", "n") else "decimal")
     datas = [("h\n  x %s\n" % x).encode() for x in nums]
     parse_stream_diff(ctx, datas, "C04:value-differs")
     # through the command line (raw export keeps file order)
@@ -306,7 +318,8 @@ def check_C04(ctx):
     return dict(rule="(1) every string of <= %d tokens over a 12-token alphabet (letters incl. non-ASCII, digit, '.', '-', ':', quote, '#', space, tab, LF, CR) through "
                 "parser.ParseStreamCallback vs the model, exact callback sequence; (2) random abstract files in the shape of Model/Syntax.v rendered with every layout variant: "
                 "the implementation's records must equal the file's records (the right-hand side of theorem parse_render_roundtrip); (3) number lexemes incl. 15-20 digit decimals, "
-                "ties, subnormals, specials compared bit for bit; (4) csv database on the binary. Non-trivial = a rendered file with at least one heading and one entry, distinct by bytes" % L,
+                "ties, subnormals, specials, and the whole ParseFloat grammar (signs x decimal / hexadecimal mantissa x exponent, underscores, inf / nan spellings) with near-misses and "
+                "single-character mutations, compared bit for bit; (4) csv database on the binary. Non-trivial = a rendered file with at least one heading and one entry, distinct by bytes" % L,
                 extra=dict(exhaustive=False))
 
 def check_C09(ctx):
